@@ -182,6 +182,14 @@ def c06_frame(spec, obs, sc=0):
         if not st < en:
             v.append(("zero-length", f"{rec['id']} has work but start {st} = end {en}"))
         for r, slots in byres.items():
+            # a portion below a microsecond is rounding noise, not work: it must not exist (it makes the task 'work' in a slot
+            # in which it does nothing, and drags its reported start / end there)
+            noise = [s for s, q in slots.items() if 0 <= q < 1e-6]
+            if noise:
+                v.append(("sliver", f"{rec['id']} on {r}: {slots[noise[0]]:.3g}s booked in slot {slot_start(obs, noise[0])} (rounding noise carried as a booking)"))
+                slots = {s: q for s, q in slots.items() if q >= 1e-6}
+                if not slots:
+                    continue
             s1, s2 = min(slots), max(slots)
             q1, q2 = slots[s1], slots[s2]
             a1, a2 = slot_start(obs, s1), slot_start(obs, s2)
